@@ -35,6 +35,9 @@ pub struct Log {
     pub hits: usize,
     pub writes: usize,
     pub impure_key: Option<String>,
+    /// scheduler steps at which a value was stored that the same run later replaced by a
+    /// different value (a provisional store): used only to direct further schedules
+    pub rewrites: Vec<usize>,
     pub stalled: bool,
 }
 
@@ -50,8 +53,8 @@ struct State {
     prio: Vec<i64>,
     since_switch: usize,
     log: Log,
-    /// key -> (value, writer task)
-    written: HashMap<String, (i16, usize)>,
+    /// key -> (value, writer task, step of the store)
+    written: HashMap<String, (i16, usize, usize)>,
     pending_read: Vec<Option<String>>,
 }
 
@@ -309,7 +312,7 @@ impl SearchObserver for Sched {
                     if hit.is_some() {
                         st.log.hits += 1;
                         if let Some(k) = key {
-                            if let Some((_, writer)) = st.written.get(&k) {
+                            if let Some((_, writer, _)) = st.written.get(&k) {
                                 if *writer != i {
                                     st.log.cross_task_hits += 1;
                                 }
@@ -326,12 +329,18 @@ impl SearchObserver for Sched {
                         return;
                     }
                     st.log.writes += 1;
-                    if let Some((old, _)) = st.written.get(key) {
-                        if *old != *value && st.log.impure_key.is_none() {
-                            st.log.impure_key = Some(format!("{} written as {} and as {}", key, old, value));
+                    if let Some((old, _, step)) = st.written.get(key).cloned() {
+                        if old != *value {
+                            if st.log.impure_key.is_none() {
+                                st.log.impure_key = Some(format!("{} written as {} and as {}", key, old, value));
+                            }
+                            if st.log.rewrites.len() < 4096 {
+                                st.log.rewrites.push(step);
+                            }
                         }
                     }
-                    st.written.insert(key.clone(), (*value, i));
+                    let step = st.log.steps;
+                    st.written.insert(key.clone(), (*value, i, step));
                 }
             }
         }
